@@ -960,8 +960,44 @@ def run_assign_cell(torch, b, t, form, n=3):
     return r
 
 
+def run_assign_noise_cell(torch, b, t, form, n=3):
+    """the same for the global noise of a batched multitask likelihood: `noise = v`, v a float / 0-d tensor / 1 / b x 1 (parameter shape b x 1)"""
+    from gpytorch.likelihoods import MultitaskGaussianLikelihood
+    D = torch.float64
+    full = 0.3 + 0.2 * torch.arange(b, dtype=D).unsqueeze(-1)
+    val = dict(float=0.45, scalar=torch.tensor(0.45, dtype=D), one=torch.tensor([0.45], dtype=D), bx1=full.clone())[form]
+    want = torch.broadcast_to(torch.as_tensor(val, dtype=D), (b, 1)).clone()
+    cell = dict(assign=dict(b=b, t=t, form=form, param="noise"))
+    r = dict(key=dict(cfg=dict(cls="MTassign", op="assign-noise", b=b, t=t, form=form)), ok=True, nontrivial=form == "bx1",
+             sig="C12/assign/noise/%s/%s" % (form, "b=t" if b == t else "b!=t"), case=dict(cell=cell, N=n, T=t, K=0, seed=0), sample=None)
+
+    def go():
+        lik = MultitaskGaussianLikelihood(num_tasks=t, rank=0, batch_shape=torch.Size([b]), has_global_noise=True, has_task_noise=False).double()
+        lik.noise = val
+        got = lik.noise.detach().clone()
+        d = make_dist(torch, torch.Generator().manual_seed(5), (b,), n, t, True)[0]
+        with torch.no_grad():
+            return got, lik(d).covariance_matrix - d.covariance_matrix
+    ok, res = core.guarded(go)
+    if not ok:
+        r.update(ok=False, sig=r["sig"] + "/raises", detail="noise = <%s value> on a batch-%d multitask likelihood with %d tasks raised %s" % (form, b, t, res))
+        return r
+    got, added = res
+    ref = want.unsqueeze(-1) * torch.eye(n * t, dtype=D)
+    good, why = entry_close(torch, got, want, 1e-9, 1e-9)
+    if good:
+        good, why = entry_close(torch, added, ref, 1e-9, 1e-9)
+        why = "noise added to an interleaved %d x %d-task distribution: %s" % (n, t, why)
+    else:
+        why = "noise read back: %s" % why
+    if not good:
+        r.update(ok=False, detail="noise = <%s value> on a batch-%d multitask likelihood with %d tasks; documented value = the assigned value broadcast to %d x 1; %s" % (form, b, t, b, why))
+    return r
+
+
 def assignment_forms(torch):
-    return [run_assign_cell(torch, b, t, f) for b in (2, 3) for t in (2, 3) for f in ASSIGN_FORMS]
+    return [run_assign_cell(torch, b, t, f) for b in (2, 3) for t in (2, 3) for f in ASSIGN_FORMS] + \
+           [run_assign_noise_cell(torch, b, t, f) for b in (2, 3) for t in (2, 3) for f in ("float", "scalar", "one", "bx1")]
 
 
 def domain_probe():
@@ -983,7 +1019,7 @@ def replay(rep):
     case = rep["case"]
     if "assign" in case["cell"]:
         a = case["cell"]["assign"]
-        r = run_assign_cell(torch, a["b"], a["t"], a["form"])
+        r = (run_assign_noise_cell if a.get("param") == "noise" else run_assign_cell)(torch, a["b"], a["t"], a["form"])
     else:
         r = run_cell(torch, case["cell"], case["N"], case["T"], case["K"], case["seed"])
     if r.get("machinery"):
